@@ -334,10 +334,12 @@ def r4_order(cx):
     if clos[0] != "closure" or clos[1] not in m.fns:
         raise Anchor("memory query: the sort comparator is not a local closure")
     comp = [m.fns[clos[1]]]
+    # closures nested in the comparator (map / fold bodies) belong to it, and so do the local helpers any of them calls
+    comp += [g for g in m.fns.values() if g.q.startswith(clos[1] + "::{closure")]
     for g in list(comp):
         for c in g.calls():
             h = m.fns.get(c.q)
-            if h is not None and c.callee.get("local") and h not in comp and len(comp) < 6:
+            if h is not None and c.callee.get("local") and h not in comp and len(comp) < 10:
                 comp.append(h)
     num_v = dict(m.variants("serde_json::Value"))["Number"]
     stringly = []
@@ -380,13 +382,38 @@ def r4_order(cx):
     if not stringly:
         cx.ob("C10.R4", "mem:order:string-image", True, "with two numeric sort keys the comparator of the memory store never compares `Value::to_string()` images", sort[0].loc)
     cx.ob("C10.R4", "mem:order:numeric", bool(numeric), "with two numeric sort keys the comparator reaches a comparison of numbers (%s)" % ", ".join(sorted({short_name(c.q) for _, c in numeric}) or ["none found"]), sort[0].loc)
-    # both directions use the same comparator with swapped operands
-    g0 = comp[0]
-    helper_calls = [c for c in g0.calls() if m.fns.get(c.q) in comp[1:] and str(m.fns[c.q].local_ty(0)).endswith("cmp::Ordering")]
-    if len(helper_calls) == 2:
-        r0 = [pa.root(g0, a) for a in helper_calls[0].args]
-        r1 = [pa.root(g0, a) for a in helper_calls[1].args]
-        cx.ob("C10.R4", "mem:order:desc-is-swap", r0 == r1[::-1] and r0[0] != r0[1], "descending order is the same comparison with the operands swapped", helper_calls[0].loc)
+    # both directions use the same comparator: swapped operands, or the reversed result, under the `rev` flag of the key
+    helper_sites = [(g, c) for g in comp for c in g.calls() if m.fns.get(c.q) in comp and m.fns.get(c.q) is not g and "::{closure" not in c.q and str(m.fns[c.q].local_ty(0)).endswith("cmp::Ordering")]
+    if len(helper_sites) == 2 and helper_sites[0][0] is helper_sites[1][0]:
+        g0 = helper_sites[0][0]
+        r0 = [pa.root(g0, a) for a in helper_sites[0][1].args]
+        r1 = [pa.root(g0, a) for a in helper_sites[1][1].args]
+        cx.ob("C10.R4", "mem:order:desc-is-swap", r0 == r1[::-1] and r0[0] != r0[1], "descending order is the same comparison with the operands swapped", helper_sites[0][1].loc)
+    elif len(helper_sites) == 1:
+        g0, hc = helper_sites[0]
+        rev = [c for c in g0.calls() if c.q.endswith("Ordering::reverse") and pa.root(g0, c.args[0])[:3] == ("call", hc.q, hc.b)]
+        flagged = bool(rev) and any(not gd.neutral and gd.truth is True for gd in guards_of(m, g0, rev[0].b, mode="alias"))
+        cx.ob("C10.R4", "mem:order:desc-is-swap", flagged, "descending order is the reversed result of the same comparison, taken exactly under the key's `rev` flag", hc.loc)
+    # several keys: the earlier key decides, a later one only breaks ties - `accumulated.then(current)`
+    thens = [(g, c) for g in comp for c in g.calls() if c.q.endswith("Ordering::then") or c.q.endswith("Ordering::then_with")]
+    for i, (g, c) in enumerate(thens):
+        recv, arg = pa.root(g, c.args[0]), pa.root(g, c.args[1])
+        cx.ob("C10.R4", "mem:order:key-priority" + ("" if i == 0 else "#%d" % (i + 1)), _is_accumulated(m, g, pa, recv) and not _is_accumulated(m, g, pa, arg),
+              "sort keys are combined as `earlier.then(later)`: the first requested key decides, the next ones only break ties (receiver %s, argument %s)" % (root_str(recv), root_str(arg)), c.loc)
+    if not thens:
+        cx.ob("C10.R4", "mem:order:key-priority", False, "no `Ordering::then` found in the comparator: several sort keys are not combined lexicographically", sort[0].loc)
+
+
+def _is_accumulated(m, g, pa, r):
+    """is r the ordering carried over from the earlier keys: a loop-carried local (several definitions, one of them the
+    result of `then`), or the accumulator parameter of a fold closure (first argument)?"""
+    if r[0] == "local" and r[4] >= 2:
+        return True
+    if r[0] == "param" and "::{closure" in g.q:
+        return r[1] == 2   # _1 is the closure itself, _2 the accumulator, _3 the element
+    if r[0] == "call" and (r[1].endswith("Ordering::then") or r[1].endswith("Ordering::then_with")):
+        return True
+    return False
 
 
 EXPECT_OPS = {"eq": {"EQ"}, "is_null": {"EQ"}, "ne": {"NE"}, "is_not_null": {"NE"}, "lt": {"LT"}, "lte": {"LE"}, "gt": {"GT"}, "gte": {"GE"}}
